@@ -157,7 +157,7 @@ def run_case(case, tier):
             else:
                 for k, (x, y) in enumerate(zip(r.planes, b.planes)):
                     if x != y:
-                        viol.append(dict(key="C09|output-differs", what="picture %d differs from the 1-thread decode (%s; tiles=%d sbrows=%d)" % (k, tag, tiles, sbrows)))
+                        viol.append(dict(key="C09|output-differs|tiles%s" % ("1" if tiles == 1 else "2-4" if tiles <= 4 else "5+"), what="picture %d differs from the 1-thread decode (%s; tiles=%d sbrows=%d)" % (k, tag, tiles, sbrows)))
                         break
                 else:
                     done += 1
